@@ -17,7 +17,7 @@ def run(env, tier, seed, broken=None):
     n = 0
     V = [e for e, k in pools.VALUES]
     # operators x kinds (a thinner matrix than C02's: one representative per kind plus boundary numbers)
-    reps = ['0', '-1', '0.5', '63', '64', '2 ** 63', '-(2 ** 63)', '2 ** 64', '2 ** 1024', '2 ** 1024 - 2 ** 1024', '""', '"a"', '"5"', '"inf"', NIL, TRUE, '[]', 'arr', 'arr3', '{}', 'ob', 'fn1', LEN, '1 << 62', '1e308'.replace('1e308', '10 ** 308')]
+    reps = ['0', '-1', '0.5', '63', '64', '2 ** 63', '-(2 ** 63)', '2 ** 64', '2 ** 1024', '2 ** 1024 - 2 ** 1024', '""', '"a"', '"5"', '"inf"', NIL, TRUE, '[]', 'arr', 'arr3', '{}', 'ob', 'fn1', LEN, SIN, COS, '"\u0661\u0662"', '"\u0967"', '"\uff11"', '"\u09df"', '1 << 62', '1e308'.replace('1e308', '10 ** 308')]
     for op in pools.BINOPS:
         for a in reps:
             for b in reps:
